@@ -993,3 +993,71 @@ func IsExtractOf(v ssa.Value, call ssa.Value, idx int) bool {
 	e, ok := v.(*ssa.Extract)
 	return ok && e.Tuple == call && e.Index == idx
 }
+
+// BaseName is the callee's method/function name without package, receiver
+// or type arguments ("Add" for (*queue.Queue[T]).Add[...]).
+func BaseName(f *ssa.Function) string {
+	if f == nil {
+		return ""
+	}
+	n := FullName(f)
+	if i := strings.LastIndex(n, "."); i >= 0 {
+		n = n[i+1:]
+	}
+	if i := strings.Index(n, "$"); i >= 0 {
+		n = n[:i]
+	}
+	return n
+}
+
+// CellLoads lists the loads of local cell a in its function and in every
+// closure that captures it.
+func CellLoads(a *ssa.Alloc) []*ssa.UnOp {
+	var out []*ssa.UnOp
+	var visit func(addr ssa.Value)
+	visit = func(addr ssa.Value) {
+		refs := addr.Referrers()
+		if refs == nil {
+			return
+		}
+		for _, r := range *refs {
+			switch x := r.(type) {
+			case *ssa.UnOp:
+				if x.Op == token.MUL && x.X == addr {
+					out = append(out, x)
+				}
+			case *ssa.MakeClosure:
+				g := x.Fn.(*ssa.Function)
+				for i, bnd := range x.Bindings {
+					if bnd == addr && i < len(g.FreeVars) {
+						visit(g.FreeVars[i])
+					}
+				}
+			}
+		}
+	}
+	visit(a)
+	return out
+}
+
+// ReturnResult resolves result i of a return. Functions with defers spill
+// their results into local cells (`*t0 = v; rundefers; t = *t0; return t`);
+// this looks through the spill to v when the store is in the same block.
+func ReturnResult(r *ssa.Return, i int) ssa.Value {
+	v := r.Results[i]
+	u, ok := v.(*ssa.UnOp)
+	if !ok || u.Op != token.MUL {
+		return v
+	}
+	al, ok := u.X.(*ssa.Alloc)
+	if !ok {
+		return v
+	}
+	instrs := r.Block().Instrs
+	for k := len(instrs) - 1; k >= 0; k-- {
+		if st, ok := instrs[k].(*ssa.Store); ok && st.Addr == ssa.Value(al) {
+			return st.Val
+		}
+	}
+	return v
+}
